@@ -7,7 +7,7 @@ pub struct NodeIndex<Ix = DefaultIx>(pub Ix);
 
 //@ item src/graph_impl/mod.rs | - | struct EdgeIndex
 /// Edge identifier.
-#[derive(Copy, Clone, PartialEq, Eq)]
+#[derive(Copy, Clone, Default, PartialEq, PartialOrd, Eq, Ord, Hash)]
 pub struct EdgeIndex<Ix = DefaultIx>(pub Ix);
 //@ end
 
